@@ -97,6 +97,15 @@ fn observe_iter<W: TW, B: AsRef<[W]>>(c: &mut Case, b: &BitFieldVec<W, B>, m: &[
             });
         }
     }
+    // the checked iterators through the skipping adaptors and ExactSizeIterator::len
+    if len <= 3000 && c.rng().random_range(0..4u32) == 0 {
+        c.iter_protocol("iter_adaptors", || b.iter().map(|x| x.to128()), m, trace);
+        c.iter_exact_len("iter_exact_len", || b.iter(), len, trace);
+        let k = if len == 0 { 0 } else { c.rng().random_range(0..=len) };
+        let tr = || format!("iter_from({}); {}", k, trace());
+        c.iter_protocol("iter_from_adaptors", || b.iter_from(k).map(|x| x.to128()), &m[k..], &tr);
+        c.iter_exact_len("iter_from_exact_len", || b.iter_from(k), len - k, &tr);
+    }
     let want: Vec<u128> = m.iter().rev().copied().collect();
     if let Some(got) = c.guard("rev_unchecked_iter", || {
         let mut it = b.into_rev_unchecked_iter();
